@@ -493,6 +493,16 @@ def run_one(ck, prog):
     else:
         ck.note(f"config {ck.config}: no `alloc` Command builder compiled; C13.5/C13.6 not applicable there")
 
+    # Child::wait gives up its write end of the child's stdin BEFORE it waits: a child that reads to end of input would otherwise never see
+    # the end and never exit - the parent holding the only writer while blocked in wait4
+    cw = prog.fns.get("tiny_std::process::Child::wait")
+    if ck.anchor("C13.7", "Child::wait", cw):
+        c7 = prog.ctx(cw)
+        waits = [bb for bb, t in c7.cfg.calls(lambda t: (t.get("callee") or "").endswith(("Process::wait", "wait::wait_pid")))]
+        closes = [bb for bb, t in c7.cfg.calls(lambda t: (t.get("callee") or "").endswith(("core::mem::drop", "ptr::drop_in_place")))
+                  if c7.args(bb) and mentions(c7.args(bb)[0], c7.prov, lambda z: z[0] == "field" and z[2] == "stdin")]
+        ck.ob("C13.7", "Child::wait|stdin-closed-before-waiting", len(waits) == 1 and bool(closes) and any(c7.cfg.dominates(cb_, waits[0]) and cb_ != waits[0] for cb_ in closes), fn=cw["path"],
+              detail=f"the piped stdin must be dropped (taken out of self.stdin) before the wait call; drops of stdin found at blocks {closes}, wait at {waits}")
     # ---- C13.7 wait / try_wait ----------------------------------------------------------------------------------------------
     for nm, flag_ok in (("tiny_std::process::Process::wait", lambda v: v == 0), ("tiny_std::process::Process::try_wait", lambda v: v == 1)):
         fn = prog.fns.get(nm)
